@@ -263,6 +263,15 @@ def report(c, sg, idx, clauses, known, ms, md, seen):
     rnd = next((x for x in reversed(sg[:idx + 1]) if x["ev"] == "Round"), None)
     hist = [(x["ev"], x.get("faults") or x.get("up")) for x in sg[1:idx + 1] if x["ev"] in ("Round", "Crash", "Restart")]
     prop = [x for x in clauses if x != "MatchesModel"]
+    if sg[0].get("fresh"):
+        # (nor "valid index entries applied", which counts the service index: it is not downloaded there)
+        prop = [x for x in prop if x != "ValidIndexEntriesApplied"]
+        clauses = prop or clauses
+    if not prop and sg[0].get("fresh"):
+        # worlds in which the service index and the safe-search list stay fresh (not downloaded again):
+        # the model describes rounds that download everything, so only the property clauses are judged
+        # there, not the agreement with the model
+        return
     sig = {"kind": prop[0] if prop else clauses[0], "explained_by": known, "ev": e["ev"]}
     key = json.dumps(sig, sort_keys=True)
     seen[key] = seen.get(key, 0) + 1
